@@ -149,7 +149,13 @@ func (b *built) runModeT(procs int, mode string, limit time.Duration) (outcome, 
 	}()
 	select {
 	case o := <-done:
-		cancel()
+		// The context is deliberately NOT cancelled after a run that returned: goroutines of the program
+		// that are still running keep running after Run returns (unlike gc, where they die with main), and one
+		// started with `go` on a function VALUE runs inside a callable wrapper (runtime.(*callable).Value) that
+		// panics with the context's error when its VM is cancelled — in its own goroutine, which kills the
+		// whole process (seen once in a thorough run: "panic: context canceled … created by (*VM).callNative").
+		// The property is about uncancelled runs; the context is left to the garbage collector.
+		_ = cancel
 		return o, true
 	case <-time.After(limit):
 		cancel() // a hanging run under a Done mode is stopped; the others leak their goroutines
